@@ -88,4 +88,128 @@ def readChunks (buf : List Nat) : List (Nat × Chunk) :=
   (walk buf).filterMap (fun f =>
     if f.known then some (f.ptr, { id := f.id, payload := (buf.drop (f.ptr + 8)).take f.size }) else none)
 
+/-! ### WOZ2 object level: field copies, fixed/rebased track-bits offset
+
+`Woz2` is the part of `struct Woz2` (woz2.rs) that reaches the file.  `Info` and `TMap` are derived `DiskStruct`s: their
+`update_from_bytes` refuses a chunk shorter than the struct and copies the first 68 / 168 bytes field by field,
+`to_bytes` concatenates the fields — so they are kept as the 68 / 168 bytes themselves (id and size included).
+The 12-byte header's CRC field is write-only (recomputed by every `to_bytes`, never read) and is not part of
+the state.  The META chunk is held as the payload text `Meta::to_bytes` regenerates from its records
+(`key TAB value LF` per record); that `Meta::update_from_bytes` followed by `Meta::to_bytes` reproduces such a text is the
+record-level law `metaText_roundtrip` below.  `kind` and the head position are not stored in the file. -/
+
+structure Trk where
+  start : Nat
+  count : Nat
+  bitCount : List Nat
+deriving DecidableEq, Repr
+
+def trkBytes (t : Trk) : List Nat := le16 t.start ++ le16 t.count ++ t.bitCount
+
+structure Woz2 where
+  magic : List Nat
+  info : List Nat
+  tmap : List Nat
+  /-- the size field of the TRKS chunk as created / loaded (a2kit never recomputes it) -/
+  trksSize : List Nat
+  trks : List Trk
+  bits : List Nat
+  metaTxt : Option (List Nat)
+  /-- the whole WRIT chunk including its 8 header bytes, carried through verbatim -/
+  writ : Option (List Nat)
+  /-- `track_bits_offset` -/
+  off : Nat
+deriving DecidableEq, Repr
+
+/-- the block re-basing at the top of `Woz2::to_bytes` (woz2.rs): `none` = the remaining `panic!` for an offset
+that is not a multiple of 512 -/
+def rebase (x : Woz2) : Option Woz2 :=
+  if x.off = 1536 then some x
+  else if x.off % 512 ≠ 0 then none
+  else
+    let k := x.off / 512
+    some { x with
+      trks := x.trks.map (fun t => if t.start ≥ k then { t with start := (t.start + 3 - k) % 65536 } else t)
+      off := 1536 }
+
+def trksChunk (x : Woz2) : List Nat :=
+  le32 TRKS_ID ++ x.trksSize ++ (x.trks.map trkBytes).flatten ++ x.bits
+
+def metaChunk (x : Woz2) : List Nat :=
+  match x.metaTxt with
+  | some p => le32 META_ID ++ le32 (p.length % 4294967296) ++ p
+  | none => []
+
+def body2 (x : Woz2) : List Nat :=
+  x.info ++ x.tmap ++ trksChunk x ++ metaChunk x ++ (x.writ.getD [])
+
+/-- `Woz2::to_bytes(&mut self)`: the bytes and the object afterwards -/
+def toBytes2 (x : Woz2) : Option (List Nat × Woz2) :=
+  match rebase x with
+  | none => none
+  | some y =>
+    match crc32 0 (body2 y) with
+    | some c => some (y.magic ++ le32 c ++ body2 y, y)
+    | none => none
+
+/-- the byte range of a track inside `trks.bits` (`get_trk_bits_rng`): `none` = `BadTrack` -/
+def bitsRange (x : Woz2) (t : Trk) : Option (Nat × Nat) :=
+  if t.start * 512 < x.off then none else
+  let b := t.start * 512 - x.off
+  let e := b + t.count * 512
+  if e > x.bits.length then none else some (b, e)
+
+def parseTrks : Nat → List Nat → List Trk
+  | 0, _ => []
+  | n + 1, bs => { start := unle16 (bs.getD 0 0) (bs.getD 1 0), count := unle16 (bs.getD 2 0) (bs.getD 3 0),
+                   bitCount := (bs.drop 4).take 4 } :: parseTrks n (bs.drop 8)
+
+/-- one iteration of the dispatch `match (id,maybe_chunk)` in `Woz2::from_bytes`; `none` = `Err` -/
+def step2 (st : Woz2) (pc : Nat × Chunk) : Option Woz2 :=
+  let ptr := pc.1
+  let c := pc.2
+  let chunk := chunkBytes c
+  if c.id = INFO_ID then (if chunk.length < 68 then none else some { st with info := chunk.take 68 })
+  else if c.id = TMAP_ID then (if chunk.length < 168 then none else some { st with tmap := chunk.take 168 })
+  else if c.id = TRKS_ID then
+    if chunk.length < 1288 then none
+    else if c.payload.length % 4294967296 < 1280 then none
+    else if (c.payload.length % 4294967296 - 1280) % 512 > 0 then none
+    else some { st with off := ptr + 1288, trksSize := (chunk.drop 4).take 4,
+                        trks := parseTrks 160 (chunk.drop 8), bits := chunk.drop 1288 }
+  else if c.id = META_ID then some { st with metaTxt := some c.payload }
+  else if c.id = WRIT_ID then some { st with writ := some chunk }
+  else some st
+
+def foldSteps : Woz2 → List (Nat × Chunk) → Option Woz2
+  | st, [] => some st
+  | st, pc :: r => match step2 st pc with
+    | some st' => foldSteps st' r
+    | none => none
+
+/-- `Woz2::from_bytes` up to the nibble-level kind detection; `none` = `Err` -/
+def fromBytes2 (buf : List Nat) : Option Woz2 :=
+  if buf.length < 12 then none else
+  if buf.take 4 ≠ [0x57, 0x4F, 0x5A, 0x32] then none else
+  let init : Woz2 := { magic := buf.take 8, info := [], tmap := [], trksSize := [], trks := [], bits := [],
+                       metaTxt := none, writ := none, off := 0 }
+  match foldSteps init (readChunks buf) with
+  | none => none
+  | some st =>
+    let vers := st.info.getD 8 0
+    let dtype := st.info.getD 9 0
+    let sides := st.info.getD 45 0
+    if vers ≥ 3 ∧ (st.info.drop 54).take 2 ≠ [0, 0] ∧ (st.info.drop 56).take 2 ≠ [0, 0] then none
+    else if ¬ ((dtype = 1 ∧ sides = 1) ∨ (dtype = 2 ∧ sides = 1) ∨ (dtype = 2 ∧ sides = 2)) then none
+    -- `id > 0` for INFO, TMAP, TRKS: the three chunks have been seen
+    else if st.info = [] ∨ st.tmap = [] ∨ st.trks = [] then none
+    else some st
+
+/-! ### META records ↔ text (woz2.rs `Meta::to_bytes` / `Meta::update_from_bytes`) -/
+
+/-- `Meta::to_bytes`: `key TAB value LF` per record -/
+def metaText : List (List Nat × List Nat) → List Nat
+  | [] => []
+  | (k, v) :: r => k ++ [9] ++ v ++ [10] ++ metaText r
+
 end A2Verif.Model.C09Woz
